@@ -440,7 +440,7 @@ func (r *RefRun) setAll(step string, outs [][2]string, table map[string]Status, 
 		if !ok {
 			st = def
 		}
-		if st == Produced {
+		if st == Produced || r.St[key(step, o[0], o[1])] == Produced {
 			continue // set separately with data
 		}
 		r.St[key(step, o[0], o[1])] = st
@@ -501,6 +501,15 @@ func (r *RefRun) decide(s *Step) bool {
 			r.St[key(s.ID, "closed", "result")] = U
 			r.Unique = false
 		}
+		return true
+	}
+	if stopped {
+		// the stop condition competes with the step's own progress: which terminal stage it
+		// reports and whether the plugin runs depends on timing
+		r.Unique = false
+		oc.What = "stopped-race"
+		oc.MayRun = true
+		r.setAll(s.ID, pluginOutputs, nil, U)
 		return true
 	}
 	// deployment
